@@ -92,6 +92,11 @@ RuleFailedFor(sc, rules, r, out, T) ==
                ELSE CoreFailed(sc, r, f(i), out[i].core) : i \in mine}
         \cup UNION {ExtentFailed(sc, r, out[i].core, out[i].extent) : i \in mine}
         \cup (IF \E i, j \in mine : i # j /\ f(i) \cap f(j) # {} THEN {"anchor_in_exactly_one_core"} ELSE {})
+        (* the anchoring genes of a protocluster are reported as its defining genes (rules without superiors: an
+           inferior rule's domains are deliberately stripped from genes that also satisfy the superior; genes that the
+           one-base seam of a whole-record neighbourhood leaves outside the extent are not listed at all) *)
+        \cup (IF r.sup = <<>> /\ \E i \in mine : \E g \in (UNION f(i)) \cap AnchorSet(sc, r) \cap GenesInside(sc, out[i].extent) : g \notin SeqSet(out[i].defs)
+              THEN {"anchoring_genes_are_defining_genes"} ELSE {})
         \cup (IF \E c \in lost : ~mayDrop(c) THEN {"every_anchoring_group_has_a_protocluster"} ELSE {})
         \cup (IF \E c \in matched : mustDrop(c) THEN {"dropped_when_superior_covers_core"} ELSE {})
 
